@@ -4,6 +4,7 @@ package c10
 
 import (
 	"fmt"
+	"math/bits"
 	"math/rand"
 	"sort"
 	"strings"
@@ -51,7 +52,7 @@ func run(c *vk.Ctx) {
 	for mask := 0; mask < 32; mask++ {
 		for _, v2 := range []bool{false, true} {
 			cfg := drive.Cfg{V2: v2, QueryCache: mask&1 != 0, CheckIterCache: mask&2 != 0, LOIterCache: mask&4 != 0, SharedIter: mask&8 != 0, Controller: mask&16 != 0,
-				ControllerTTL: time.Hour, LOEngine: []string{"classic", "pipeline"}[mask%2]}
+				ControllerTTL: time.Hour, LOEngine: []string{"classic", "pipeline"}[(bits.OnesCount(uint(mask))+b2i(v2))%2]}
 			s, err := drive.NewShared(cfg, base)
 			if err != nil {
 				c.HarnessError("server %s: %v", cfg.Name(), err)
@@ -66,7 +67,7 @@ func run(c *vk.Ctx) {
 		}
 	}
 	perCase := c.Pick(4, 8)
-	sem.RunCases(c, base, "mem", c.Pick(48, 400), gen.Options{}, 0, 8, func(i int, r *rand.Rand, p *sem.Prepared, _ []*openfgav1.TupleKey) {
+	sem.RunCases(c, base, "mem", c.Pick(48, 400), gen.Options{HierarchyEvery: 3}, 0, 8, func(i int, r *rand.Rand, p *sem.Prepared, _ []*openfgav1.TupleKey) {
 		for k := 0; k < perCase; k++ {
 			cs := servers[(i*perCase+k)%len(servers)]
 			history(c, i, k, r, p, base, cs)
@@ -107,6 +108,11 @@ func history(c *vk.Ctx, i, k int, r *rand.Rand, p *sem.Prepared, base *drive.Srv
 		c.HarnessError("install: %v", err)
 		return
 	}
+	// planner strategies: forced per history (the planner on its own rarely leaves its first choice
+	// within one short history, which would leave the weight-2 / recursive strategies' reads unexplored)
+	mode := []drive.Mode{"", "fast", "default", "fast"}[(i+k)%4]
+	drive.ForceStore(store, mode)
+	c.Count("histories_strategy_mode_"+string(mode), 1)
 	subjects, ctxs, nodes := sem.RequestSpace(r, pp, 4, 2)
 	rctx := ctxs[len(ctxs)-1]
 	cur := func() []*openfgav1.TupleKey {
@@ -128,32 +134,129 @@ func history(c *vk.Ctx, i, k int, r *rand.Rand, p *sem.Prepared, base *drive.Srv
 	}
 	steps := c.Pick(10, 24)
 	for step := 0; step < steps; step++ {
-		// 1. warm: default-consistency requests (answers not judged here)
-		for _, rq := range reqs {
-			cs.s.Check(drive.Req{Store: store, Object: rq.Object, Relation: rq.Relation, User: rq.User, Ctx: rctx})
-		}
-		if step%3 == 0 {
-			cs.s.ListObjects(drive.Req{Store: store, Object: typeOf(reqs[0].Object), Relation: reqs[0].Relation, User: reqs[0].User, Ctx: rctx})
-		}
-		// 2. one write or delete
+		// 0. plan the write / delete of this step first, so that the very requests judged after it are
+		//    warmed before it (a cache can only serve a stale answer for a request it has seen)
 		before := rc
 		var changed *openfgav1.TupleKey
-		if len(pool) > 0 && (len(state) == 0 || r.Intn(2) == 0) {
-			changed = pool[len(pool)-1]
-			pool = pool[:len(pool)-1]
+		isWrite := false
+		// candidates: up to 3 writes from the pool and up to 3 deletes from the state; the one whose effect
+		// flips the most answers on its own object (by the reference) is taken, so that most steps change
+		// something a stale cache entry would get wrong
+		type cand struct {
+			tk    *openfgav1.TupleKey
+			write bool
+			flips []string // subjects whose answer on some relation of the object flips
+			n     int
+		}
+		var cands []cand
+		for j := 0; j < 3 && j < len(pool); j++ {
+			cands = append(cands, cand{tk: pool[len(pool)-1-j], write: true})
+		}
+		if len(state) > 0 {
+			ks := make([]string, 0, len(state))
+			for kk := range state {
+				ks = append(ks, kk)
+			}
+			sort.Strings(ks)
+			for j := 0; j < 3 && j < len(ks); j++ {
+				cands = append(cands, cand{tk: state[ks[r.Intn(len(ks))]]})
+			}
+		}
+		best := -1
+		for ci := range cands {
+			cd := &cands[ci]
+			var after []*openfgav1.TupleKey
+			for _, tk := range cur() {
+				if cd.write || key(tk) != key(cd.tk) {
+					after = append(after, tk)
+				}
+			}
+			if cd.write {
+				after = append(after, cd.tk)
+			}
+			rcA := ref.NewCase(pp.Ref, after, rctx, sem.ExtraObjects(nodes, subjects)...)
+			ct, _ := ref.SplitObject(cd.tk.GetObject())
+			for _, u := range subjects {
+				ea, eb := rcA.Eval(u), rc.Eval(u)
+				fl := false
+				for _, rel := range pp.Ref.RelationNames(ct) {
+					if ea.K(cd.tk.GetObject(), rel) != eb.K(cd.tk.GetObject(), rel) {
+						cd.n++
+						fl = true
+					}
+				}
+				if fl {
+					cd.flips = append(cd.flips, u)
+				}
+			}
+			if best < 0 || cd.n > cands[best].n {
+				best = ci
+			}
+		}
+		var flipSubjects []string
+		if best >= 0 {
+			changed, isWrite, flipSubjects = cands[best].tk, cands[best].write, cands[best].flips
+			if cands[best].n > 0 {
+				c.Count("steps_whose_change_flips_an_answer_on_its_object", 1)
+			}
+		}
+		// focus requests: every relation of the changed object, for the subjects whose answers flip, the
+		// tuple's user and two sampled subjects
+		stepReqs := append([]sem.Request{}, reqs...)
+		listSubj := reqs[step%len(reqs)].User
+		if changed != nil {
+			ct, _ := ref.SplitObject(changed.GetObject())
+			fs := []string{subjects[step%len(subjects)], subjects[(step+1)%len(subjects)]}
+			if len(flipSubjects) > 3 {
+				flipSubjects = flipSubjects[:3]
+			}
+			fs = append(flipSubjects, fs...)
+			if !ref.IsUserset(changed.GetUser()) && !ref.IsWildcard(changed.GetUser()) {
+				fs = append(fs, changed.GetUser())
+			}
+			if len(flipSubjects) > 0 && !ref.IsWildcard(flipSubjects[0]) {
+				listSubj = flipSubjects[0]
+			}
+			seen := map[string]bool{}
+			for _, rq := range reqs {
+				seen[rq.Object+"#"+rq.Relation+"@"+rq.User] = true
+			}
+			for _, rel := range pp.Ref.RelationNames(ct) {
+				for _, u := range fs {
+					if k := changed.GetObject() + "#" + rel + "@" + u; !seen[k] {
+						seen[k] = true
+						stepReqs = append(stepReqs, sem.Request{Object: changed.GetObject(), Relation: rel, User: u, Ctx: rctx})
+					}
+				}
+			}
+		}
+		// 1. warm: default-consistency requests (answers not judged here)
+		for _, rq := range stepReqs {
+			cs.s.Check(drive.Req{Store: store, Object: rq.Object, Relation: rq.Relation, User: rq.User, Ctx: rctx})
+		}
+		if changed != nil {
+			ct, _ := ref.SplitObject(changed.GetObject())
+			for _, rel := range pp.Ref.RelationNames(ct) {
+				cs.s.ListObjects(drive.Req{Store: store, Object: ct, Relation: rel, User: listSubj, Ctx: rctx})
+				cs.s.ListUsers(drive.Req{Store: store, Object: changed.GetObject(), Relation: rel, Ctx: rctx}, "user", "")
+				c.Count("warmed_list_requests", 2)
+			}
+		}
+		// 2. the write or delete
+		if changed != nil && isWrite {
+			for pi, tk := range pool {
+				if tk == changed {
+					pool = append(pool[:pi:pi], pool[pi+1:]...)
+					break
+				}
+			}
 			if err := cs.s.WriteTuples(store, pp.ModelID, []*openfgav1.TupleKey{changed}); err != nil {
 				c.HarnessError("write %s: %v", gen.TupleString(changed), err)
 				return
 			}
 			state[key(changed)] = changed
 			c.Count("writes", 1)
-		} else if len(state) > 0 {
-			ks := make([]string, 0, len(state))
-			for kk := range state {
-				ks = append(ks, kk)
-			}
-			sort.Strings(ks)
-			changed = state[ks[r.Intn(len(ks))]]
+		} else if changed != nil {
 			if err := cs.s.DeleteTuples(store, pp.ModelID, []*openfgav1.TupleKey{changed}); err != nil {
 				c.HarnessError("delete %s: %v", gen.TupleString(changed), err)
 				return
@@ -165,7 +268,7 @@ func history(c *vk.Ctx, i, k int, r *rand.Rand, p *sem.Prepared, base *drive.Srv
 		rc = ref.NewCase(pp.Ref, cur(), rctx, sem.ExtraObjects(nodes, subjects)...)
 		// 3. higher-consistency requests: must see the new state
 		var batch []drive.BatchItem
-		for qi, rq := range reqs {
+		for qi, rq := range stepReqs {
 			kNew := rc.Eval(rq.User).K(rq.Object, rq.Relation)
 			kOld := before.Eval(rq.User).K(rq.Object, rq.Relation)
 			flipped := kNew != kOld
@@ -181,7 +284,7 @@ func history(c *vk.Ctx, i, k int, r *rand.Rand, p *sem.Prepared, base *drive.Srv
 		}
 		if res, err := cs.s.BatchCheck(store, "", batch, true); err == nil {
 			for qi, it := range batch {
-				rq := reqs[qi]
+				rq := stepReqs[qi]
 				kNew := rc.Eval(rq.User).K(rq.Object, rq.Relation)
 				kOld := before.Eval(rq.User).K(rq.Object, rq.Relation)
 				c.Case(fmt.Sprintf("batch|%s|%s", cs.name, sem.ShapeOf(pp, rq, kNew)), kNew != kOld || kNew != ref.F)
@@ -191,51 +294,53 @@ func history(c *vk.Ctx, i, k int, r *rand.Rand, p *sem.Prepared, base *drive.Srv
 		// list APIs on the relation of the changed tuple
 		if changed != nil {
 			t, _ := ref.SplitObject(changed.GetObject())
-			subj := reqs[step%len(reqs)].User
-			want, anyE := sem.RefListObjects(rc, t, changed.GetRelation(), subj)
-			old, _ := sem.RefListObjects(before, t, changed.GetRelation(), subj)
-			if !anyE {
-				lo := cs.s.ListObjects(drive.Req{Store: store, Object: t, Relation: changed.GetRelation(), User: subj, Ctx: rctx, HigherConsistency: true})
-				c.Case(fmt.Sprintf("lo|%s|%s|n=%d", cs.name, ref.Shape(pp.Ref.Rewrite(t, changed.GetRelation())), len(want)), strings.Join(want, ",") != strings.Join(old, ",") || len(want) > 0)
-				if !sem.Hung(c, cs.name, lo) && lo.Err == nil {
-					got := append([]string{}, lo.Items...)
-					sort.Strings(got)
-					if strings.Join(got, ",") != strings.Join(want, ",") {
-						stale := ""
-						if strings.Join(got, ",") == strings.Join(old, ",") && strings.Join(old, ",") != strings.Join(want, ",") {
-							stale = " (this is the answer for the state BEFORE the last write: stale)"
+			subj := listSubj
+			for _, lrel := range pp.Ref.RelationNames(t) {
+				want, anyE := sem.RefListObjects(rc, t, lrel, subj)
+				old, _ := sem.RefListObjects(before, t, lrel, subj)
+				if !anyE {
+					lo := cs.s.ListObjects(drive.Req{Store: store, Object: t, Relation: lrel, User: subj, Ctx: rctx, HigherConsistency: true})
+					c.Case(fmt.Sprintf("lo|%s|%s|n=%d", cs.name, ref.Shape(pp.Ref.Rewrite(t, lrel)), len(want)), strings.Join(want, ",") != strings.Join(old, ",") || len(want) > 0)
+					if !sem.Hung(c, cs.name, lo) && lo.Err == nil {
+						got := append([]string{}, lo.Items...)
+						sort.Strings(got)
+						if strings.Join(got, ",") != strings.Join(want, ",") {
+							stale := ""
+							if strings.Join(got, ",") == strings.Join(old, ",") && strings.Join(old, ",") != strings.Join(want, ",") {
+								stale = " (this is the answer for the state BEFORE the last write: stale)"
+							}
+							f := classifyList(pp, cs, rc, lrel, subj, got, want)
+							c.Violation(f, fmt.Sprintf("lo|%s|%v", cs.name, stale != ""), fmt.Sprintf("HIGHER_CONSISTENCY ListObjects(%s, %s, %s) on %s = %v; reference on the current state %v%s", t, lrel, subj, cs.name, got, want, stale),
+								witness(pp, cs.name, sem.Request{Object: t, Relation: lrel, User: subj, Ctx: rctx}, cur(), strings.Join(want, ","), strings.Join(got, ",")))
 						}
-						f := classifyList(pp, cs, rc, changed.GetRelation(), subj, got, want)
-						c.Violation(f, fmt.Sprintf("lo|%s|%v", cs.name, stale != ""), fmt.Sprintf("HIGHER_CONSISTENCY ListObjects(%s, %s, %s) on %s = %v; reference on the current state %v%s", t, changed.GetRelation(), subj, cs.name, got, want, stale),
-							witness(pp, cs.name, sem.Request{Object: t, Relation: changed.GetRelation(), User: subj, Ctx: rctx}, cur(), strings.Join(want, ","), strings.Join(got, ",")))
 					}
 				}
-			}
-			exp := sem.RefListUsers(rc, changed.GetObject(), changed.GetRelation(), "user", "")
-			if !exp.AnyE && !pp.Ref.ReachesExclusion(t, changed.GetRelation()) {
-				lu := cs.s.ListUsers(drive.Req{Store: store, Object: changed.GetObject(), Relation: changed.GetRelation(), Ctx: rctx, HigherConsistency: true}, "user", "")
-				c.Case(fmt.Sprintf("lu|%s|%s|n=%d", cs.name, ref.Shape(pp.Ref.Rewrite(t, changed.GetRelation())), len(exp.Concrete)), len(exp.Concrete) > 0)
-				if lu.Err == nil {
-					wild := false
-					got := map[string]bool{}
-					for _, u := range lu.Items {
-						got[u] = true
-						if ref.IsWildcard(u) {
-							wild = true
+				exp := sem.RefListUsers(rc, changed.GetObject(), lrel, "user", "")
+				if !exp.AnyE && !pp.Ref.ReachesExclusion(t, lrel) {
+					lu := cs.s.ListUsers(drive.Req{Store: store, Object: changed.GetObject(), Relation: lrel, Ctx: rctx, HigherConsistency: true}, "user", "")
+					c.Case(fmt.Sprintf("lu|%s|%s|n=%d", cs.name, ref.Shape(pp.Ref.Rewrite(t, lrel)), len(exp.Concrete)), len(exp.Concrete) > 0)
+					if lu.Err == nil {
+						wild := false
+						got := map[string]bool{}
+						for _, u := range lu.Items {
+							got[u] = true
+							if ref.IsWildcard(u) {
+								wild = true
+							}
 						}
-					}
-					for _, u := range exp.Concrete {
-						if !got[u] && !wild {
-							c.Violation("", "lu-missing|"+cs.name, fmt.Sprintf("HIGHER_CONSISTENCY ListUsers(%s#%s, user) on %s omitted %s: got %v, reference %v", changed.GetObject(), changed.GetRelation(), cs.name, u, lu.Items, exp.Concrete),
-								witness(pp, cs.name, sem.Request{Object: changed.GetObject(), Relation: changed.GetRelation(), User: "user", Ctx: rctx}, cur(), strings.Join(exp.Concrete, ","), strings.Join(lu.Items, ",")))
-							break
+						for _, u := range exp.Concrete {
+							if !got[u] && !wild {
+								c.Violation("", "lu-missing|"+cs.name, fmt.Sprintf("HIGHER_CONSISTENCY ListUsers(%s#%s, user) on %s omitted %s: got %v, reference %v", changed.GetObject(), lrel, cs.name, u, lu.Items, exp.Concrete),
+									witness(pp, cs.name, sem.Request{Object: changed.GetObject(), Relation: lrel, User: "user", Ctx: rctx}, cur(), strings.Join(exp.Concrete, ","), strings.Join(lu.Items, ",")))
+								break
+							}
 						}
-					}
-					for u := range got {
-						if kk := rc.Eval(u).K(changed.GetObject(), changed.GetRelation()); kk != ref.T {
-							c.Violation("", "lu-unsound|"+cs.name, fmt.Sprintf("HIGHER_CONSISTENCY ListUsers(%s#%s, user) on %s returned %s whose reference value on the current state is %s", changed.GetObject(), changed.GetRelation(), cs.name, u, kk),
-								witness(pp, cs.name, sem.Request{Object: changed.GetObject(), Relation: changed.GetRelation(), User: u, Ctx: rctx}, cur(), kk.String(), "returned"))
-							break
+						for u := range got {
+							if kk := rc.Eval(u).K(changed.GetObject(), lrel); kk != ref.T {
+								c.Violation("", "lu-unsound|"+cs.name, fmt.Sprintf("HIGHER_CONSISTENCY ListUsers(%s#%s, user) on %s returned %s whose reference value on the current state is %s", changed.GetObject(), lrel, cs.name, u, kk),
+									witness(pp, cs.name, sem.Request{Object: changed.GetObject(), Relation: lrel, User: u, Ctx: rctx}, cur(), kk.String(), "returned"))
+								break
+							}
 						}
 					}
 				}
@@ -317,4 +422,11 @@ func witness(p *sem.Prepared, cfg string, rq sem.Request, state []*openfgav1.Tup
 	w := sem.Witness(p, cfg, "", rq, nil, want, got)
 	w["state_at_call_time"] = gen.TupleStrings(state)
 	return w
+}
+
+func b2i(b bool) int {
+	if b {
+		return 1
+	}
+	return 0
 }
